@@ -7,6 +7,7 @@ since the fix of D6 (ties go to the style voted for first); the correspondence r
 code behaves like this function, repeating every command on the same input.
 -/
 import KlogV.Lemmas.Style
+import KlogV.Props.Tables
 namespace KlogV.C11
 
 /-- The election returns the default when nobody voted … -/
